@@ -34,8 +34,10 @@ def ncells(shape):
 
 def gen_case(rng, max_events=24, kind=None):
     kind = kind or rng.choice(KINDS)
-    payload = rng.choice(["plain", "plain", "masked", "maskedflex"])
+    payload = rng.choice(["plain", "plain", "masked", "maskedflex", "maskedgap"])
     shape = rng.choice(["g2", "g22"]) if payload != "plain" else rng.choices(list(SHAPES), weights=[5, 3, 2])[0]
+    if payload == "maskedgap":
+        shape = "g22"
     if kind == "stack" and shape == "scalar":
         shape = "g2"  # StackTime rejects stacked scalar (NoGrid) payloads with or without a limit; not a spill matter
     nc = ncells(shape)
@@ -113,6 +115,13 @@ def payload_of(case, vals, dshape):
     arr = np.array(vals, dtype=float).reshape(dshape)
     if case["payload"] == "masked":
         return np.ma.masked_array(arr, np.array(MASKS[case["shape"]]).reshape(dshape))
+    if case["payload"] == "maskedgap":
+        # the metadata declare a fixed mask (say land cells); every publication masks one more cell of its own
+        # (a data gap that moves from publication to publication)
+        m = np.array(MASKS[case["shape"]]).reshape(-1).copy()
+        free = [i for i, x in enumerate(m) if not x]
+        m[free[int(vals[0]) % len(free)]] = True
+        return np.ma.masked_array(arr, m.reshape(dshape))
     if case["payload"] == "maskedflex":
         # flexible mask (no mask in the metadata): the mask varies from publication to publication and is
         # empty for some of them (a MaskedArray without any masked cell)
@@ -141,7 +150,7 @@ def run_impl(case, location, limit="case"):
     grid = fm.NoGrid() if dims is None else fm.UniformGrid(dims)
     dshape = () if dims is None else tuple(d - 1 for d in dims)
     info_kw = {}
-    if case["payload"] == "masked":
+    if case["payload"] in ("masked", "maskedgap"):
         info_kw["mask"] = np.array(MASKS[case["shape"]]).reshape(dshape)
     out = fm.Output(name="out", info=fm.Info(time=T(0), grid=grid, units=case["units"], **info_kw))
     inputs = [fm.Input(name=f"in{k}", info=fm.Info(time=None, grid=None, units=None)) for k in range(case["n_ends"])]
@@ -228,7 +237,7 @@ def model_request(case):
 
 
 def unmasked(case):
-    if case["payload"] == "masked":
+    if case["payload"] in ("masked", "maskedgap"):
         return [i for i, m in enumerate(MASKS[case["shape"]]) if not m]
     return list(range(ncells(case["shape"])))
 
@@ -252,7 +261,7 @@ def same_answer(case, a, m):
         return False
     idx = unmasked(case)
     nc = ncells(case["shape"])
-    if case["payload"] == "maskedflex" and len(a["mask"]) == nc * len(rows):
+    if case["payload"] in ("maskedflex", "maskedgap") and len(a["mask"]) == nc * len(rows):
         # time-varying mask: compare the cells that are unmasked in the delivered answer
         return all(close(r[i], q[i][0] / q[i][1]) for k, (r, q) in enumerate(zip(rows, m["ok"])) for i in idx
                    if not a["mask"][k * nc + i])
@@ -319,7 +328,7 @@ def run_composition(case, location, limit):
     dshape = tuple(d - 1 for d in dims)
     nc = ncells(case["shape"])
     info_kw = {}
-    if case["payload"] == "masked":
+    if case["payload"] in ("masked", "maskedgap"):
         info_kw["mask"] = np.array(MASKS[case["shape"]]).reshape(dshape)
     day = td(86_400_000_000)
     os.makedirs(location, exist_ok=True)
